@@ -82,6 +82,10 @@ NormLo(start, n) == NormBound(start, n, 0)
 NormHi(stop, n)  == NormBound(stop, n, n)
 
 Range(f) == {f[x] : x \in DOMAIN f}
+
+\* a contract clause: <<name, evaluated non-trivially?, holds?>>
+Cl(name, nontriv, holds) == << <<name, nontriv, holds>> >>
+None == << >>
 MinOf(a, b) == IF a < b THEN a ELSE b
 MaxOf(a, b) == IF a > b THEN a ELSE b
 =============================================================================
